@@ -43,6 +43,10 @@ val hd : 'a1 -> 'a1 list -> 'a1
 
 val nth : nat -> 'a1 list -> 'a1 -> 'a1
 
+val last : 'a1 list -> 'a1 -> 'a1
+
+val removelast : 'a1 list -> 'a1 list
+
 val rev : 'a1 list -> 'a1 list
 
 val list_eq_dec : ('a1 -> 'a1 -> bool) -> 'a1 list -> 'a1 list -> bool
@@ -55,7 +59,11 @@ val fold_left : ('a1 -> 'a2 -> 'a1) -> 'a2 list -> 'a1 -> 'a1
 
 val fold_right : ('a2 -> 'a1 -> 'a1) -> 'a1 -> 'a2 list -> 'a1
 
+val existsb : ('a1 -> bool) -> 'a1 list -> bool
+
 val forallb : ('a1 -> bool) -> 'a1 list -> bool
+
+val filter : ('a1 -> bool) -> 'a1 list -> 'a1 list
 
 val firstn : nat -> 'a1 list -> 'a1 list
 
@@ -454,3 +462,81 @@ val parse_pre_fix : n list -> ucode list
 val area_debug : area -> n list
 
 val area_display : area -> n list
+
+val later_end : n -> n list -> bool
+
+val starts : n -> n list -> bool
+
+val is_heart : n -> bool
+
+val is_areach : n -> bool
+
+val split_on : n -> n list -> n list -> n list list
+
+val slot_of : n list -> slot
+
+val bang_of : n list -> area
+
+val area_of : n list -> area
+
+type head =
+| HSingle of n
+| HMulti of n * n list * n
+
+type ccmd = { chead : head; cdotitems : n list; careaitems : n list }
+
+type cst = { cprefix : n list; ccmds : ccmd list }
+
+val flat_head : head -> n list
+
+val flat_cmd : ccmd -> n list
+
+val flat_cmds : ccmd list -> n list
+
+val flatten : cst -> n list
+
+val all_ctx : (n -> n list -> bool) -> n list -> n list -> bool
+
+val valid_head : head -> bool
+
+val valid_cmd : ccmd -> n list -> bool
+
+val valid_cmds : ccmd list -> bool
+
+val valid : cst -> bool
+
+val head_kind : head -> n
+
+val head_syl : head -> n
+
+val head_raw : head -> n list
+
+val dots_of : n list -> n
+
+val advance : n list -> (n * n) -> n * n
+
+val abstract_cmd : ccmd -> (n * n) -> ucode
+
+val abstract_cmds : ccmd list -> (n * n) -> ucode list
+
+val abstract : cst -> ucode list
+
+type dmode =
+| DPrefix
+| DInner of n
+| DDots
+| DArea
+
+type dst = { dpre : n list; ddone : ccmd list; dmode_ : dmode; dstart : 
+             n; dinner : n list; dhead : head; ddots : n list; darea : 
+             n list }
+
+val dst0 : dst
+
+val dclose : dst -> ccmd list
+
+val dstep : dst -> n -> n list -> dst
+
+val dscan : n list -> dst -> dst
+
+val decompose : n list -> cst
